@@ -176,7 +176,9 @@ def build(recipe):
 
 
 def _key(k):
-    if isinstance(k, list):      # ["t", [...]] tuple key
+    if isinstance(k, list):      # ["t", [...]] tuple key, ["fs", [...]] frozenset key
+        if k[0] == 'fs':
+            return frozenset(_key(x) for x in k[1])
         return tuple(_key(x) for x in k[1])
     return k
 
